@@ -417,6 +417,10 @@ def run(ctx):
                        {"join": jitems[len(jitems) // 2][0]},
                        {"roundtrip": [ritems[0][0], ritems[0][1]]}],
            "exhaustive": True}
+    # one large input (30000 events) through this property's entry points
+    from .. import big
+    viols = list(viols) + big.violations("C09", ctx.scratch)
+    cov["big_input_events"] = big.N
     return {"level": LEVEL, "coverage": cov, "violations": viols,
             "assumptions": [
                 "ties are generated with equal run index (the property says "
@@ -426,6 +430,9 @@ def run(ctx):
 
 
 def replay(case, ctx):
+    if case.get("kind") == "big":
+        from .. import big
+        return big.violations("C09", ctx.scratch)
     if case["kind"] == "split":
         return _split_case((case["n"], case["size"], case["zero_first"],
                             case["zero_last"], case["skip"], case["seed"],
